@@ -93,6 +93,14 @@ func runC16(t *testing.T, tape *sim.Tape, tier string) *Outcome {
 		cl.useServer(rs)
 	}
 	cl.Sticky = []int{0, 0, 2, 3}[tape.Draw(4, "sticky")]
+	// a quarter of the runs: some acquisitions of the command lock find it busy (phantom holder), so that what
+	// the code does while it waits for the lock is part of the explored behaviour
+	if tape.Draw(4, "contention") == 3 {
+		cl.Contend = make([]bool, 64)
+		for i := range cl.Contend {
+			cl.Contend[i] = tape.Draw(4, "busy") == 3
+		}
+	}
 	if err := cl.startServer(); err != nil {
 		o.violate("harness:start", "Start failed: %v", err)
 		cl.finish()
